@@ -5,7 +5,7 @@ from __future__ import annotations
 import os
 from pathlib import Path
 from typing import cast
-from uuid import uuid4
+from uuid import NAMESPACE_URL, uuid5
 
 from docutils import nodes
 from markdown_it.tree import SyntaxTreeNode
@@ -210,7 +210,11 @@ class SphinxRenderer(DocutilsRenderer):
         self.current_node.append(node)
 
     def _random_label(self) -> str:
-        return str(uuid4())
+        # the label must be unique within the project, but also reproducible:
+        # it is derived from the document name and the number of labels already created for it
+        count = getattr(self, "_random_label_count", 0) + 1
+        self._random_label_count = count
+        return str(uuid5(NAMESPACE_URL, f"{self.sphinx_env.docname}#{count}"))
 
     def render_amsmath(self, token: SyntaxTreeNode) -> None:
         """Renderer for the amsmath extension."""
